@@ -19,6 +19,7 @@ func checkC07(p *Prog, r *Report) {
 	r.rule("R11 splice loops: " + "after X = append(X[:a], X[b:]...) inside a loop over the removed index, the loop must leave, count downwards, or continue at an index <= a (so the element that moved down is examined)")
 	r.rule("R8b prefix pruning: strings.HasPrefix between two items of a list whose items are later split on a delimiter must test the shorter item followed by that delimiter")
 	r.rule("R4 error discipline and (value, nil) / (nothing, error) returns for NewURLFromRaw, NewURL, NewParams")
+	r.rule("C07.sort-name-tests: in the loop over the caller's sorting rules the comparison with \"id\" and the comparisons with the attribute names are applied to one and the same value (the rule stripped of its dash), so every valid rule is kept")
 	r.rule("C07.member-append: in NewParams every string appended to a result list is a constant, or is guarded by an equality with \"id\", with an attribute name of the schema type, or with an element of Type.Fields(), or comes from a list built that way")
 	r.rule("C07.include-chain: wherever the type for the next word of an inclusion path is looked up from <rel>.ToType, the same loop stores into <rel> the relationship found in the current type's Rels map, on a path back to that lookup (the walk advances along the chain of relationships)")
 	r.rule("C07.id-total: the list stored in Params.SortingRules contains \"id\" on every path (an append of the constant, or a flag that is only set where a rule equal to \"id\" was appended)")
@@ -68,6 +69,7 @@ func checkC07(p *Prog, r *Report) {
 
 	checkIncludeChain(p, r, np)
 	checkMemberAppends(p, r, np)
+	checkSortNameTests(p, r, np)
 	checkIDTotal(p, r, np)
 	checkURLTypeExists(p, r)
 }
@@ -245,6 +247,57 @@ func guardedMember(e ssa.Value, b *ssa.BasicBlock) (bool, string) {
 		}
 	}
 	return false, ""
+}
+
+// checkSortNameTests: in the loop over the caller's sorting rules, the test
+// against "id" and the test against the attribute names look at the same
+// value (the rule without its leading dash), so "-id" is recognised exactly
+// like "-name".
+func checkSortNameTests(p *Prog, r *Report, f *ssa.Function) {
+	n := 0
+	for _, ld := range findLoops(f) {
+		if ld.kind != "slice" {
+			continue
+		}
+		if _, fl, ok := fieldLoad(ld.src); !ok || fl != "SortingRules" {
+			continue
+		}
+		var tested []ssa.Value
+		var where []ssa.Instruction
+		// the natural loop plus the blocks of its early exits
+		blocks := map[*ssa.BasicBlock]bool{}
+		for b := range ld.blocks {
+			blocks[b] = true
+		}
+		for b := range blocks {
+			for _, ins := range b.Instrs {
+				bo, ok := ins.(*ssa.BinOp)
+				if !ok || bo.Op != token.EQL {
+					continue
+				}
+				for _, pr := range [][2]ssa.Value{{bo.X, bo.Y}, {bo.Y, bo.X}} {
+					s, isC := constString(pr[1])
+					if (isC && s == "id") || isSchemaName(pr[1]) {
+						tested = append(tested, pr[0])
+						where = append(where, bo)
+					}
+				}
+			}
+		}
+		if len(tested) < 2 {
+			continue
+		}
+		n++
+		same := true
+		for _, t := range tested[1:] {
+			if t != tested[0] {
+				same = false
+			}
+		}
+		r.decide(same, "C07.sort-name-tests", "NewParams:sorting-loop", p.pos(where[0].Pos()), "\"id\" and the attribute names are tested against the same dash-stripped rule",
+			"the test against \"id\" and the test against the attribute names look at different values: a valid descending rule (-id or -name) is not recognised and is dropped")
+	}
+	r.floor("sorting loops with name tests", n, 1)
 }
 
 // checkMemberAppends: every string appended in f is a member by construction.
